@@ -156,3 +156,98 @@ func isZeroConst(v ssa.Value) bool {
 }
 
 func init() { register(ruleOKFlag) }
+
+// R-VALUETYPES (C09, C10, C18, C19): the datetime values are values.
+//
+// A *types.Timestamp travels through the executor as an item: it is @ in a
+// filter, it is compared, cast, printed, compared again. The exported methods
+// of the five datetime types therefore never write through their receiver
+// (the JSON/text/SQL decoding methods excepted, whose job it is): a cast that
+// re-zones its receiver in place returns the right value and leaves the item
+// denoting another instant for every later step.
+var ruleValueTypes = &Rule{
+	Name: "R-VALUETYPES", NeedSSA: true,
+	Doc: "no exported method of the five datetime types (UnmarshalJSON, UnmarshalText, UnmarshalBinary and Scan excepted) stores through its receiver or hands the receiver, or a pointer into it, to a function that may write through that parameter (callees followed; an unexported helper that works in place is fine on a fresh value): items are not altered by being cast or compared",
+	Run: func(p *Prog) *RuleOut {
+		out := newOut("R-VALUETYPES")
+		n := 0
+		for _, d := range p.A.DateTimeImpls {
+			for _, recvT := range []types.Type{d, types.NewPointer(d)} {
+				ms := p.SSA.MethodSets.MethodSet(recvT)
+				for i := 0; i < ms.Len(); i++ {
+					m := p.SSA.MethodValue(ms.At(i))
+					if m == nil || m.Blocks == nil || m.Synthetic != "" || m.Object() == nil || !m.Object().Exported() || fnPkgPath(m) != pkgTypes {
+						continue
+					}
+					// methods declared on the pointer only (value methods work on a copy)
+					if _, isPtr := m.Signature.Recv().Type().(*types.Pointer); !isPtr {
+						continue
+					}
+					switch m.Name() {
+					case "UnmarshalJSON", "UnmarshalText", "UnmarshalBinary", "Scan":
+						continue
+					}
+					if _, isPtrT := recvT.(*types.Pointer); !isPtrT {
+						continue
+					}
+					n++
+					recv := m.Params[0]
+					fromRecv := func(v ssa.Value) bool {
+						if v == nil {
+							return false
+						}
+						for _, o := range p.provenance(m, v).Origins {
+							if o.Val == ssa.Value(recv) && o.Loads == 0 {
+								return true
+							}
+						}
+						return false
+					}
+					key := fnName(m) + " leaves its receiver as it is"
+					bad := ""
+					for _, w := range writesOf(m) {
+						if fromRecv(w.Base) && bad == "" {
+							bad = w.Kind + " through the receiver at " + p.pos(w.Instr.Pos())
+						}
+					}
+					for _, b := range m.Blocks {
+						for _, ins := range b.Instrs {
+							ci, ok := ins.(ssa.CallInstruction)
+							if !ok || bad != "" {
+								continue
+							}
+							if _, isB := ci.Common().Value.(*ssa.Builtin); isB {
+								continue
+							}
+							for ai, a := range ci.Common().Args {
+								if _, isPtr := a.Type().Underlying().(*types.Pointer); !isPtr || !fromRecv(a) {
+									continue
+								}
+								callee := ci.Common().StaticCallee()
+								if ci.Common().IsInvoke() {
+									callee = nil
+								}
+								if callee != nil && !inModule(callee) {
+									continue // the standard library's time and fmt read their receivers
+								}
+								if why := p.paramMayBeWritten(callee, ai, 0); why != "" {
+									bad = "the receiver is handed to " + calleeName(ci.Common()) + " at " + p.pos(ins.Pos()) + ", which may write through it (" + why + ")"
+								}
+							}
+						}
+					}
+					if bad == "" {
+						out.ok(key, p.pos(m.Pos()), fnName(m), "no write through the receiver, here or in a callee it is handed to")
+					} else {
+						out.viol(key, p.pos(m.Pos()), fnName(m), bad+": the value an item denotes changes by being cast or compared, so @ means something else for the next step")
+					}
+				}
+			}
+		}
+		out.Counts["exported_pointer_methods_of_datetime_types"] = n
+		out.Floors["exported_pointer_methods_of_datetime_types"] = 10
+		return out
+	},
+}
+
+func init() { register(ruleValueTypes) }
